@@ -39,8 +39,7 @@ structure GU (n0 : Nat) (A : List Str) (u0 u : UState) : Prop where
   allMarkEq : u.allMark = u0.allMark
   clen : u.checkers.length = u0.checkers.length
   each : ∀ (k : Nat) (c : Checker), u0.checkers[k]? = some c →
-    u.checkers[k]? = some c ∨
-    ((∃ key, (u0.heap.get 4).get key = some (.obj k)) ∧ u.checkers[k]? = some { c with used := true })
+    u.checkers[k]? = some c ∨ u.checkers[k]? = some { c with used := true }
   ents : ∀ x, (x ∈ u0.deferred ∨ x ∈ u0.useMarks) → (x ∈ u.deferred ∨ x ∈ u.useMarks)
 
 theorem GU.init (A : List Str) (u : UState) : GU u.heap.length A u u :=
@@ -77,31 +76,20 @@ theorem GU.sniU {n0 : Nat} {A : List Str} {u0 u : UState} (h : GU n0 A u0 u) (hv
   rcases sniU_weak u ids d with he | ⟨i, key, k, hk, he⟩
   · rw [he]; exact h
   · rw [he]
-    have hi4 : i = 4 := h.valid hv i key k hk
-    subst hi4
-    rw [h.cell4 h5] at hk
-    refine ⟨h.len, h.old, h.fresh, h.freshCls, h.freshItems, h.unusedEq, h.inClassEq, h.allMarkEq, by simp [markUsed]; exact h.clen,
-      fun j c hc => ?_, h.ents⟩
-    show (markUsed u.checkers k)[j]? = _ ∨ _
-    rw [markUsed_getElem]
-    by_cases hj : j = k
-    · subst hj
-      rcases h.each j c hc with h1 | ⟨hr, h1⟩
-      · exact .inr ⟨⟨key, hk⟩, by simp [h1]⟩
-      · exact .inr ⟨hr, by simp [h1]⟩
-    · simp only [hj, ↓reduceIte]; exact h.each j c hc
+    have hr : MarkRel u0.checkers (markUsed u.checkers k) := MarkRel.trans ⟨h.clen, h.each⟩ (markUsed_rel u.checkers k)
+    exact ⟨h.len, h.old, h.fresh, h.freshCls, h.freshItems, h.unusedEq, h.inClassEq, h.allMarkEq, hr.1, hr.2, h.ents⟩
 
 theorem storeU_plain (u : UState) (x : Str) (hx : simpleName x = true)
     (hv : ∀ v, (u.heap.get u.stack.top).get x = some v → v = Val.none) :
     storeU u x .none = { u with heap := u.heap.update u.stack.top (·.set x .none) } := by
   have hla : lookupAncestors u x = u := by unfold lookupAncestors; rw [prefixes_simple hx]; rfl
-  have hro : reportOld u x = u := by
-    unfold reportOld
+  have hp : pendingOf u.checkers x ((u.heap.get u.stack.top).get x) = [] := by
     cases hold : (u.heap.get u.stack.top).get x with
     | none => rfl
     | some old => rw [hv old hold]; rfl
   unfold storeU
-  rw [hla, hro]
+  simp only [hla, hp, List.isEmpty_nil, ↓reduceIte, List.append_nil, ite_self]
+  rfl
 
 /-- a store into a fresh cell (argument scope or body scope) -/
 theorem GU.store {n0 : Nat} {A : List Str} {u0 u : UState} (h : GU n0 A u0 u) (x : Str) (hx : simpleName x = true) (hxA : x ∈ A)
@@ -548,7 +536,7 @@ theorem collectUnused_plain (u : UState) : ∀ (items : List (Str × Val)), (∀
   | kv :: r, h => by
     have h1 : kv.2 = Val.none := h kv (List.mem_cons_self ..)
     have : collectUnused u (kv :: r) = collectUnused u r := by
-      simp only [collectUnused, List.foldl_cons, h1, isUnusedAt]
+      simp only [collectUnused, List.foldl_cons, h1]
     rw [this]
     exact collectUnused_plain u r (fun x hx => h x (List.mem_cons_of_mem _ hx))
 
@@ -607,23 +595,18 @@ theorem defU (fx : Fixes) (D : Bool) {u : UState} {seen : List Nat} (h : UInv u 
 
 /-! ### the module-level invariants survive a definition -/
 
+theorem GU.markRel {n0 : Nat} {A : List Str} {u0 u : UState} (h : GU n0 A u0 u) : MarkRel u0.checkers u.checkers := ⟨h.clen, h.each⟩
+
 theorem GU.get {n0 : Nat} {A : List Str} {u0 u : UState} (h : GU n0 A u0 u) {k : Nat} {c' : Checker}
     (hc : u.checkers[k]? = Option.some c') :
-    ∃ c, u0.checkers[k]? = Option.some c ∧ c.bind = c'.bind ∧ c.line = c'.line ∧ c.idx = c'.idx ∧ (c.used = true → c'.used = true) := by
-  have hk : k < u0.checkers.length := by
-    rw [← h.clen]; exact (List.getElem?_eq_some_iff.mp hc).1
-  have hcu : u0.checkers[k]? = Option.some u0.checkers[k] := List.getElem?_eq_getElem hk
-  rcases h.each k _ hcu with h1 | ⟨_, h1⟩
-  · have := Option.some.inj (h1.symm.trans hc)
-    rw [← this]; exact ⟨_, hcu, rfl, rfl, rfl, fun x => x⟩
-  · have := Option.some.inj (h1.symm.trans hc)
-    rw [← this]; exact ⟨_, hcu, rfl, rfl, rfl, fun _ => rfl⟩
+    ∃ c, u0.checkers[k]? = Option.some c ∧ c.bind = c'.bind ∧ c.line = c'.line ∧ c.idx = c'.idx ∧ (c.used = true → c'.used = true) ∧
+      c.anon = c'.anon ∧ c.shadowed = c'.shadowed := h.markRel.get hc
 
 theorem GU.persist {n0 : Nat} {A : List Str} {u0 u : UState} (h : GU n0 A u0 u) : UsedPersist u0 u := by
-  intro k c hc hu
-  rcases h.each k c hc with h1 | ⟨_, h1⟩
-  · exact ⟨c, h1, hu, rfl, rfl⟩
-  · exact ⟨_, h1, rfl, rfl, rfl⟩
+  refine ⟨fun k c hc hu => ?_, fun k hk => .inl (by rw [← h.unusedEq]; exact hk)⟩
+  rcases h.each k c hc with h1 | h1
+  · exact ⟨c, h1, hu, rfl, rfl, rfl⟩
+  · exact ⟨_, h1, rfl, rfl, rfl, rfl⟩
 
 theorem UInv.grow {u u3 : UState} {seen : List Nat} {A : List Str} (h : UInv u seen) (g : GU u.heap.length A u u3)
     (hst : u3.stack = u.stack) (hif : u3.inFunc = false) : UInv u3 seen := by
@@ -634,27 +617,36 @@ theorem UInv.grow {u u3 : UState} {seen : List Nat} {A : List Str} (h : UInv u s
     by_cases hi : i < u.heap.length
     · rw [g.old i hi] at hk; exact hk
     · have := (g.fresh i (by omega) key _ hk).2.2; cases this
-  refine ⟨by rw [hst]; exact h.stack, Nat.le_trans h5 g.len, hif, by rw [hts]; exact h.simpleKeys, ?_, ?_, ?_, ?_, ?_⟩
+  have hex : ∀ (j : Nat) (d : Checker), u.checkers[j]? = some d → ∃ d', u3.checkers[j]? = some d' ∧ d'.anon = d.anon := by
+    intro j d hd
+    rcases g.each j d hd with h1 | h1
+    · exact ⟨d, h1, rfl⟩
+    · exact ⟨_, h1, rfl⟩
+  refine ⟨by rw [hst]; exact h.stack, Nat.le_trans h5 g.len, hif, by rw [hts]; exact h.simpleKeys, ?_, ?_, ?_, ?_, ?_, ?_⟩
   · intro k hk
     rw [g.unusedEq] at hk
-    obtain ⟨⟨c, hc, hcu⟩, hr⟩ := h.unusedOK k hk
-    refine ⟨?_, fun i key hcon => hr i key (hcell i key k hcon)⟩
-    rcases g.each k c hc with h1 | ⟨⟨key, hreach⟩, _⟩
-    · exact ⟨c, h1, hcu⟩
-    · exact absurd hreach (hr 4 key)
-  · intro k k' c c' hc hc' hid
-    obtain ⟨d, hd, _, hl, hi, _⟩ := g.get hc
-    obtain ⟨d', hd', _, hl', hi', _⟩ := g.get hc'
-    exact h.uniq k k' d d' hd hd' (by rw [hl, hi, hl', hi']; exact hid)
-  · intro k c hc
-    obtain ⟨d, hd, _, hl, _, _⟩ := g.get hc
-    rw [← hl]; exact h.seenLines k d hd
+    obtain ⟨⟨c, hc, hca⟩, hr⟩ := h.unusedOK k hk
+    obtain ⟨c', hc', ha'⟩ := hex k c hc
+    exact ⟨⟨c', hc', by rw [ha']; exact hca⟩, fun i key hcon => hr i key (hcell i key k hcon)⟩
+  · intro k c hc j hj
+    obtain ⟨d, hd, _, _, _, _, _, hsh⟩ := g.get hc
+    rw [← hsh] at hj
+    obtain ⟨⟨e, he, hea⟩, hr⟩ := h.shOK k d hd j hj
+    obtain ⟨e', he', ha'⟩ := hex j e he
+    exact ⟨⟨e', he', by rw [ha']; exact hea⟩, fun i key hcon => hr i key (hcell i key j hcon)⟩
+  · intro k k' c c' hc hc' ha ha' hid
+    obtain ⟨d, hd, _, hl, hi, _, hda, _⟩ := g.get hc
+    obtain ⟨d', hd', _, hl', hi', _, hda', _⟩ := g.get hc'
+    exact h.uniq k k' d d' hd hd' (by rw [hda]; exact ha) (by rw [hda']; exact ha') (by rw [hl, hi, hl', hi']; exact hid)
+  · intro k c hc ha
+    obtain ⟨d, hd, _, hl, _, _, hda, _⟩ := g.get hc
+    rw [← hl]; exact h.seenLines k d hd (by rw [hda]; exact ha)
   · intro i key k hk
     rw [g.clen]; exact h.valid i key k (hcell i key k hk)
   · intro key k c hk hc
     rw [hts] at hk
-    obtain ⟨d, hd, hb, _, _, _⟩ := g.get hc
-    rw [← hb]; exact h.bindKey key k d hk hd
+    obtain ⟨d, hd, hb, _, _, _, hda, _⟩ := g.get hc
+    rw [← hb, ← hda]; exact h.bindKey key k d hk hd
 
 theorem UShape.grow {u u3 : UState} {A : List Str} (hs : UShape u) (h5 : 5 ≤ u.heap.length) (g : GU u.heap.length A u u3) : UShape u3 := by
   refine ⟨by rw [g.old delayedId (by unfold delayedId; omega)]; exact hs.delayed, fun i hi => ?_, g.inClassEq.trans hs.inClass⟩
@@ -668,34 +660,23 @@ theorem UInv.validU {u : UState} {seen : List Nat} (h : UInv u seen) : ValidU u 
 theorem OLink.grow {o : List (Str × Nat × Nat)} {u u3 : UState} {A : List Str} (ho : OLink o u) (h5 : 5 ≤ u.heap.length)
     (g : GU u.heap.length A u u3) : OLink o u3 := by
   intro n x hx
-  obtain ⟨k, c, hk, hc, hid⟩ := ho n x hx
+  obtain ⟨k, c, hk, hc, hid, ha⟩ := ho n x hx
   have hts : topScope u3 = topScope u := by unfold topScope; exact g.old 4 (by omega)
-  rcases g.each k c hc with h1 | ⟨_, h1⟩
-  · exact ⟨k, c, by rw [hts]; exact hk, h1, hid⟩
-  · exact ⟨k, _, by rw [hts]; exact hk, h1, hid⟩
-
-theorem reportOld_inClass (u : UState) (x : Str) : (reportOld u x).inClass = u.inClass := by
-  unfold reportOld
-  split
-  · split
-    · split <;> rfl
-    · rfl
-  · rfl
+  rcases g.each k c hc with h1 | h1
+  · exact ⟨k, c, by rw [hts]; exact hk, h1, hid, ha⟩
+  · exact ⟨k, _, by rw [hts]; exact hk, h1, hid, ha⟩
 
 /-- a simple store at module level keeps the shape -/
 theorem UShape.store {u : UState} {seen : List Nat} (hs : UShape u) (h : UInv u seen) {x : Str} (hx : simpleName x = true) (v : Val) :
     UShape (storeU u x v) := by
   have htop : u.stack.top = 4 := by unfold StackRef.top; rw [h.stack]; rfl
-  have hla : lookupAncestors u x = u := by unfold lookupAncestors; rw [prefixes_simple hx]; rfl
-  obtain ⟨r1, r2, _⟩ := reportOld_facts u x
-  have hheap : (storeU u x v).heap = u.heap.update 4 (·.set x v) := by
-    unfold storeU; rw [hla]; show (reportOld u x).heap.update (reportOld u x).stack.top _ = _; rw [r1, r2, htop]
-  have hic : (storeU u x v).inClass = u.inClass := by
-    unfold storeU; rw [hla]
-    exact reportOld_inClass u x
-  refine ⟨?_, fun i hi => ?_, hic.trans hs.inClass⟩
-  · rw [hheap, Heap.get_update, if_neg (by unfold delayedId; omega)]; exact hs.delayed
-  · rw [hheap, Heap.get_update]
+  obtain ⟨v', cs', un', heq, _⟩ := storeU_shape u x hx v htop
+  rw [heq]
+  refine ⟨?_, fun i hi => ?_, hs.inClass⟩
+  · show ((u.heap.update 4 (·.set x v')).get delayedId).items = []
+    rw [Heap.get_update, if_neg (by unfold delayedId; omega)]; exact hs.delayed
+  · show ((u.heap.update 4 (·.set x v')).get i).isClass = false
+    rw [Heap.get_update]
     split
     · rename_i hc; rw [scope_set_isClass]; exact hs.noClass 4 (by simp)
     · exact hs.noClass i hi
@@ -746,29 +727,25 @@ theorem modStepU_loads (P : Str → Prop) : ∀ (L : List Str) (u : UState), u.i
 /-- `_visit_Store` of a simple key while the top scope is cell 4 -/
 theorem modStepU_store (P : Str → Prop) (u : UState) (x : Str) (hx : simpleName x = true) (v : Val) (htop : u.stack.top = 4)
     (hv : ∀ k, v = .obj k → P x) : ModStepU P u (storeU u x v) := by
-  have hla : lookupAncestors u x = u := by unfold lookupAncestors; rw [prefixes_simple hx]; rfl
-  obtain ⟨r1, r2, r3, _, _, r6, r7, _⟩ := reportOld_facts u x
-  have hic : (reportOld u x).inClass = u.inClass := reportOld_inClass u x
-  have hst : storeU u x v = { reportOld u x with heap := (reportOld u x).heap.update (reportOld u x).stack.top (·.set x v) } := by
-    unfold storeU; rw [hla]
-  rw [hst]
-  refine ⟨r2, r3, hic, by simp [Heap.length_update, r1], fun i hi => ?_, ?_, by
-    show ∀ x, _ → (x ∈ (reportOld u _).deferred ∨ x ∈ (reportOld u _).useMarks)
-    rw [r6, r7]; exact fun _ h => h, fun key k hk => ?_⟩
-  · show ((reportOld u x).heap.update (reportOld u x).stack.top (·.set x v)).get i = _
-    rw [r1, r2, htop, Heap.get_update, if_neg (fun hc => hi hc.1)]
-  · show (((reportOld u x).heap.update (reportOld u x).stack.top (·.set x v)).get 4).isClass = _
-    rw [r1, r2, htop, Heap.get_update]
+  obtain ⟨v', cs', un', heq, hv'⟩ := storeU_shape u x hx v htop
+  rw [heq]
+  refine ⟨rfl, rfl, rfl, by simp [Heap.length_update], fun i hi => ?_, ?_, fun _ h => h, fun key k hk => ?_⟩
+  · show (u.heap.update 4 (·.set x v')).get i = _
+    rw [Heap.get_update, if_neg (fun hc => hi hc.1)]
+  · show ((u.heap.update 4 (·.set x v')).get 4).isClass = _
+    rw [Heap.get_update]
     split
     · rfl
     · rfl
-  · change (((reportOld u x).heap.update (reportOld u x).stack.top (·.set x v)).get 4).get key = some (.obj k) at hk
-    rw [r1, r2, htop, Heap.get_update] at hk
+  · change ((u.heap.update 4 (·.set x v')).get 4).get key = some (.obj k) at hk
+    rw [Heap.get_update] at hk
     split at hk
     · by_cases hkx : key = x
       · subst hkx
         rw [scope_get_set_eq] at hk
-        exact .inr (hv k (by cases hk; rfl))
+        rcases hv' with hv' | ⟨_, _, k', _, hold⟩
+        · exact .inr (hv k (by rw [← hv']; cases hk; rfl))
+        · exact .inl ⟨k', hold⟩
       · rw [scope_get_set_ne _ hkx] at hk; exact .inl ⟨k, hk⟩
     · exact .inl ⟨k, hk⟩
 
@@ -1005,7 +982,7 @@ theorem locUC_B (fx : Fixes) (D : Bool) (DN : List Str) {seen : List Nat} (l : N
   rw [hops]
   have hcu : CorrU s { u with line := s.line } := ⟨hb.okeys, hb.origin, rfl, hu⟩
   have hui : UInv { u with line := s.line } seen := hb.uinv.setLine _
-  have p0 : UsedPersist u { u with line := l } := UsedPersist.ofEq rfl
+  have p0 : UsedPersist u { u with line := l } := UsedPersist.ofEq rfl rfl
   have m0 := modStepU_setLine (· ∉ DN) u l
   have m1 := modStepU_core (· ∉ DN) fx D core l { u with line := l } hfc hsc hnl hP (hb.uinv.setLine l)
   have m01 := m0.trans m1
@@ -1055,9 +1032,8 @@ theorem locUC_def (fx : Fixes) (D : Bool) (DN : List Str) {seen : List Nat} (l :
   have hs3 : UShape u3 := hsl.grow h5 g
   have htop3 : u3.stack.top = 4 := uinv_top hu3
   have mst := modStepU_store (· ∉ DN) u3 name hn .none htop3 (fun k hk => by cases hk)
-  obtain ⟨_, _, _, _, s5, _⟩ := storeU_simple hu3 hn .none
-  have p0 : UsedPersist u { u with line := l } := UsedPersist.ofEq rfl
-  have pall : UsedPersist u (storeU u3 name .none) := (p0.trans g.persist).trans (UsedPersist.ofEq s5)
+  have p0 : UsedPersist u { u with line := l } := UsedPersist.ofEq rfl rfl
+  have pall : UsedPersist u (storeU u3 name .none) := (p0.trans g.persist).trans (storeU_persist hu3 hn .none)
   have hok3 : ObjKeys DN u3 := by
     intro key k hk
     have hts : topScope u3 = topScope u := by unfold topScope; exact g.old 4 (by omega)
@@ -1263,30 +1239,42 @@ theorem stmtsUC (fx : Fixes) (D : Bool) (DN : List Str) : ∀ (ss : List Stmt) (
 
 /-! ### the calls after the last module-level statement -/
 
-/-- `o` is the identity of a checker that an entry of `_deferred_load_checks` / `_deferred_use_marks` will mark -/
+/-- `o` is the identity of an import checker that an entry of `_deferred_load_checks` / `_deferred_use_marks` will mark -/
 def PendU (u : UState) (o : Nat × Nat) : Prop :=
   ∃ (d : Str) (ids : List Nat) (k : Nat) (c : Checker), ((d, ids) ∈ u.deferred ∨ (d, ids) ∈ u.useMarks) ∧
-    findBinding u.heap (splitDots d) (normIds ids).reverse = some (.obj k) ∧ u.checkers[k]? = some c ∧ (c.line, c.idx) = o
+    findBinding u.heap (splitDots d) (normIds ids).reverse = some (.obj k) ∧ u.checkers[k]? = some c ∧ (c.line, c.idx) = o ∧
+    c.anon = false
+
+/-- `o` is the identity of a used import checker that has not been reported -/
+def LinkAt (u : UState) (o : Nat × Nat) : Prop :=
+  ∃ (k : Nat) (c : Checker), u.checkers[k]? = some c ∧ (c.line, c.idx) = o ∧ c.used = true ∧ c.anon = false ∧ k ∉ u.unused
+
+theorem LinkAt.persist {u u' : UState} {o : Nat × Nat} (h : LinkAt u o) (p : UsedPersist u u') : LinkAt u' o := by
+  obtain ⟨k, c, hc, hid, hu, ha, hnu⟩ := h
+  obtain ⟨c', hc', hu', hl, hi, ha'⟩ := p.used k c hc hu
+  refine ⟨k, c', hc', by rw [hl, hi]; exact hid, hu', by rw [ha']; exact ha, fun hk => ?_⟩
+  rcases p.rep k hk with h1 | h1
+  · exact hnu h1
+  · rw [h1 c hc] at hu; cases hu
 
 /-- every recorded use is marked already, or will be when the deferred checks run -/
 def UsedLinkP (s : XState) (u : UState) : Prop :=
-  ∀ o ∈ s.usedImps, (∃ (k : Nat) (c : Checker), u.checkers[k]? = some c ∧ (c.line, c.idx) = o ∧ c.used = true) ∨ PendU u o
+  ∀ o ∈ s.usedImps, LinkAt u o ∨ PendU u o
 
 theorem UsedLink.toP {s : XState} {u : UState} (h : UsedLink s u) : UsedLinkP s u := fun o ho => .inl (h o ho)
 
 theorem PendU.marks {P : Str → Prop} {u u' : UState} {o : Nat × Nat} (h : PendU u o) (m : Marks u u') (ms : ModStepU P u u') :
     PendU u' o := by
-  obtain ⟨d, ids, k, c, he, hf, hc, hid⟩ := h
-  rcases m.each k c hc with h1 | ⟨_, h1⟩
-  · exact ⟨d, ids, k, c, ms.ents _ he, by rw [m.heap]; exact hf, h1, hid⟩
-  · exact ⟨d, ids, k, _, ms.ents _ he, by rw [m.heap]; exact hf, h1, hid⟩
+  obtain ⟨d, ids, k, c, he, hf, hc, hid, ha⟩ := h
+  rcases m.each k c hc with h1 | h1
+  · exact ⟨d, ids, k, c, ms.ents _ he, by rw [m.heap]; exact hf, h1, hid, ha⟩
+  · exact ⟨d, ids, k, _, ms.ents _ he, by rw [m.heap]; exact hf, h1, hid, ha⟩
 
 theorem UsedLinkP.marks {P : Str → Prop} {s : XState} {u u' : UState} (h : UsedLinkP s u) (m : Marks u u') (ms : ModStepU P u u') :
     UsedLinkP s u' := by
   intro o ho
-  rcases h o ho with ⟨k, c, hc, hid, hu⟩ | hp
-  · obtain ⟨c', hc', hu', hl, hi⟩ := m.persist k c hc hu
-    exact .inl ⟨k, c', hc', by rw [hl, hi]; exact hid, hu'⟩
+  rcases h o ho with hl | hp
+  · exact .inl (hl.persist m.persist)
   · exact .inr (hp.marks m ms)
 
 /-- the lookup of a body read through frozen scopes finds what the private scope binds the head to -/
@@ -1365,10 +1353,10 @@ theorem callUC_core (fx : Fixes) (D : Bool) (DN : List Str) {seen : List Nat} (g
   have hts : topScope (runOpsU u ((g :: loadsOfs args).map Op.load)) = topScope u := by unfold topScope; rw [m.heap]
   have hol' : ∀ {o : List (Str × Nat × Nat)}, OLink o u → OLink o (runOpsU u ((g :: loadsOfs args).map Op.load)) := by
     intro o ho n x hx
-    obtain ⟨k, c, hk, hc, hid⟩ := ho n x hx
-    rcases m.each k c hc with h1 | ⟨_, h1⟩
-    · exact ⟨k, c, by rw [hts]; exact hk, h1, hid⟩
-    · exact ⟨k, _, by rw [hts]; exact hk, h1, hid⟩
+    obtain ⟨k, c, hk, hc, hid, ha⟩ := ho n x hx
+    rcases m.each k c hc with h1 | h1
+    · exact ⟨k, c, by rw [hts]; exact hk, h1, hid, ha⟩
+    · exact ⟨k, _, by rw [hts]; exact hk, h1, hid, ha⟩
   have hbase : ∀ (s' : XState), s'.origins = s.origins → s'.funcs = s.funcs →
       BaseUC D DN s' (runOpsU u ((g :: loadsOfs args).map Op.load)) seen := by
     intro s' ho hf
@@ -1398,13 +1386,15 @@ theorem callUC_core (fx : Fixes) (D : Bool) (DN : List Str) {seen : List Nat} (g
       · exact hold o h1
       · simp only [List.mem_map] at hn
         obtain ⟨d, hd, rfl⟩ := hn
-        obtain ⟨k, c, hk, hck, hid⟩ := hb.origin _ o horig
+        obtain ⟨k, c, hk, hck, hid, hca⟩ := hb.origin _ o horig
         obtain ⟨c', hc', hu'⟩ := fm d hd (hgood d hd) k c hk hck
-        obtain ⟨c0, hc0, _, hl, hi, _⟩ := m.get hc'
+        obtain ⟨c0, hc0, _, hl, hi, _, han, _⟩ := m.get hc'
         rw [hck] at hc0
         have := Option.some.inj hc0
         subst this
-        exact .inl ⟨k, c', hc', by rw [← hl, ← hi]; exact hid, hu'⟩
+        refine .inl ⟨k, c', hc', by rw [← hl, ← hi]; exact hid, hu', by rw [← han]; exact hca, fun hm => ?_⟩
+        rw [m.unusedEq] at hm
+        exact (hb.uinv.unusedOK k hm).2 4 _ (by unfold topScope at hk; exact hk)
     cases hp : callPre f g args s with
     | mk s1 r1 =>
       rw [hp] at hpre
@@ -1436,7 +1426,7 @@ theorem callUC_core (fx : Fixes) (D : Bool) (DN : List Str) {seen : List Nat} (g
               obtain ⟨d, hd, rfl⟩ := hhead
               obtain ⟨fname, hfd, hcv⟩ := hb.cov ps body hmem
               obtain ⟨ids, he, hfz⟩ := (hcv.modStep ms) d hd
-              obtain ⟨k, c, hk, hck, hid⟩ := (hol' hb.origin) _ o horig
+              obtain ⟨k, c, hk, hck, hid, hca⟩ := (hol' hb.origin) _ o horig
               have hnf : headOf d ≠ fname := by
                 intro heq
                 have := (hb.objKeys.modStep ms) (headOf d) k hk
@@ -1447,7 +1437,7 @@ theorem callUC_core (fx : Fixes) (D : Bool) (DN : List Str) {seen : List Nat} (g
                 rcases List.mem_append.mp hc' with hc' | hc'
                 · exact hnl hc'
                 · exact hnf (List.mem_singleton.mp hc')
-              exact ⟨d, ids, k, c, he, findBinding_frozen (hb.uinv.marks m) hfz (bodyLoads_good D body hbd d hd).1 hA hk, hck, hid⟩
+              exact ⟨d, ids, k, c, he, findBinding_frozen (hb.uinv.marks m) hfz (bodyLoads_good D body hbd d hd).1 hA hk, hck, hid, hca⟩
           cases r2 with
           | error x =>
             simp only
@@ -1466,9 +1456,8 @@ theorem BaseUC.line {D : Bool} {DN : List Str} {s : XState} {u : UState} {seen :
 theorem UsedLinkP.persist {s : XState} {u u' : UState} (h : UsedLinkP s u) (p : UsedPersist u u')
     (hp : ∀ o, PendU u o → PendU u' o) : UsedLinkP s u' := by
   intro o ho
-  rcases h o ho with ⟨k, c, hc, hid, hu⟩ | hpend
-  · obtain ⟨c', hc', hu', hl, hi⟩ := p k c hc hu
-    exact .inl ⟨k, c', hc', by rw [hl, hi]; exact hid, hu'⟩
+  rcases h o ho with hl | hpend
+  · exact .inl (hl.persist p)
   · exact .inr (hp o hpend)
 
 /-- one trailing call -/
@@ -1482,7 +1471,7 @@ theorem callUC (fx : Fixes) (D : Bool) (DN : List Str) {seen : List Nat} : ∀ (
     have hops : runOpsU u (cStmt fx ln (.located l s')) = runOpsU { u with line := l } (cStmt fx l s') := rfl
     rw [hops]
     have hu' : UsedLinkP { s with line := l } { u with line := l } := fun o ho => hu o ho
-    have p0 : UsedPersist u { u with line := l } := UsedPersist.ofEq rfl
+    have p0 : UsedPersist u { u with line := l } := UsedPersist.ofEq rfl rfl
     have hfr' : fragCall D s' = true := by simpa [fragCall] using hfr
     cases f with
     | zero =>
@@ -1574,7 +1563,8 @@ theorem foldl_sniU_fields : ∀ (l : List (Str × List Nat)) (u : UState),
 /-- running the deferred lookups marks the checker that an entry resolves to -/
 theorem foldl_sniU_hit : ∀ (l : List (Str × List Nat)) (u : UState) (d : Str) (ids : List Nat) (k : Nat) (c : Checker),
     (d, ids) ∈ l → findBinding u.heap (splitDots d) (normIds ids).reverse = some (.obj k) → u.checkers[k]? = some c →
-    ∃ c', (l.foldl (fun st e => (sniU st e.2 e.1).2) u).checkers[k]? = some c' ∧ c'.used = true ∧ c'.line = c.line ∧ c'.idx = c.idx
+    ∃ c', (l.foldl (fun st e => (sniU st e.2 e.1).2) u).checkers[k]? = some c' ∧ c'.used = true ∧ c'.line = c.line ∧ c'.idx = c.idx ∧
+      c'.anon = c.anon
   | [], _, _, _, _, _, hm, _, _ => by simp at hm
   | e :: r, u, d, ids, k, c, hm, hf, hc => by
     simp only [List.foldl_cons]
@@ -1584,72 +1574,46 @@ theorem foldl_sniU_hit : ∀ (l : List (Str × List Nat)) (u : UState) (d : Str)
         unfold sniU
         simp only [hf]
         show (markUsed u.checkers k)[k]? = _
-        rw [markUsed_getElem]; simp [hc]
-      obtain ⟨c', hc', hu', hl, hi⟩ := (foldl_sniU_marks r (sniU u ids d).2).persist k _ hstep rfl
-      exact ⟨c', hc', hu', hl, hi⟩
+        exact markUsed_self u.checkers k c hc
+      obtain ⟨c', hc', hu', hl, hi, ha⟩ := (foldl_sniU_marks r (sniU u ids d).2).usedStays hstep rfl
+      exact ⟨c', hc', hu', hl, hi, ha⟩
     · have m1 := sniU_marks u e.2 e.1
-      rcases m1.each k c hc with h1 | ⟨_, h1⟩
+      rcases m1.each k c hc with h1 | h1
       · exact foldl_sniU_hit r _ d ids k c hm (by rw [m1.heap]; exact hf) h1
-      · obtain ⟨c', a1, a2, a3, a4⟩ := foldl_sniU_hit r _ d ids k _ hm (by rw [m1.heap]; exact hf) h1
-        exact ⟨c', a1, a2, a3, a4⟩
+      · obtain ⟨c', a1, a2, a3, a4, a5⟩ := foldl_sniU_hit r _ d ids k _ hm (by rw [m1.heap]; exact hf) h1
+        exact ⟨c', a1, a2, a3, a4, a5⟩
 
 theorem finishU_linkP {s : XState} {u : UState} {seen : List Nat} (h : UInv u seen) (hl : UsedLinkP s u) :
     UsedLink s (finishU u) := by
   obtain ⟨_, p⟩ := finishU_facts h
   intro o ho
-  rcases hl o ho with ⟨k, c, hc, hid, hu⟩ | ⟨d, ids, k, c, he, hf, hc, hid⟩
-  · obtain ⟨c', hc', hu', hl', hi'⟩ := p k c hc hu
-    exact ⟨k, c', hc', by rw [hl', hi']; exact hid, hu'⟩
+  rcases hl o ho with hlk | ⟨d, ids, k, c, he, hf, hc, hid, hca⟩
+  · exact hlk.persist p
   · have m1 := foldl_sniU_marks u.deferred u
     have hum := (foldl_sniU_fields u.deferred u).1
     have m2 := foldl_sniU_marks (u.deferred.foldl (fun st d => (sniU st d.2 d.1).2) u).useMarks
       (u.deferred.foldl (fun st d => (sniU st d.2 d.1).2) u)
+    have hnu : k ∉ u.unused := by
+      intro hm
+      obtain ⟨i, _, key, hk⟩ := findBinding_some hf
+      exact (h.unusedOK k hm).2 i key hk
+    have hun : (finishU u).unused = u.unused := by
+      unfold finishU
+      exact (m1.trans m2).unusedEq
     show ∃ (k : Nat) (c : Checker), (finishU u).checkers[k]? = some c ∧ _
+    rw [hun]
     unfold finishU
     dsimp only
     rcases he with he | he
-    · obtain ⟨c1, a1, a2, a3, a4⟩ := foldl_sniU_hit u.deferred u d ids k c he hf hc
-      obtain ⟨c2, b1, b2, b3, b4⟩ := m2.persist k c1 a1 a2
-      exact ⟨k, c2, b1, by rw [b3, b4, a3, a4]; exact hid, b2⟩
+    · obtain ⟨c1, a1, a2, a3, a4, a5⟩ := foldl_sniU_hit u.deferred u d ids k c he hf hc
+      obtain ⟨c2, b1, b2, b3, b4, b5⟩ := m2.usedStays a1 a2
+      exact ⟨k, c2, b1, by rw [b3, b4, a3, a4]; exact hid, b2, by rw [b5, a5]; exact hca, hnu⟩
     · rw [← hum] at he
-      rcases m1.each k c hc with h1 | ⟨_, h1⟩
-      · obtain ⟨c2, b1, b2, b3, b4⟩ := foldl_sniU_hit _ _ d ids k c he (by rw [m1.heap]; exact hf) h1
-        exact ⟨k, c2, b1, by rw [b3, b4]; exact hid, b2⟩
-      · obtain ⟨c2, b1, b2, b3, b4⟩ := foldl_sniU_hit _ _ d ids k _ he (by rw [m1.heap]; exact hf) h1
-        exact ⟨k, c2, b1, by rw [b3, b4]; exact hid, b2⟩
-
-/-- a used checker is not in the final report -/
-theorem used_not_reported {uE : UState} {seen : List Nat} (h1 : UInv uE seen) {k : Nat} {c : Checker}
-    (hc : (finishU uE).checkers[k]? = some c) (hu : c.used = true) :
-    (c.line, c.idx) ∉ (scanUnusedU (finishU uE)).unused.filterMap
-      (fun k => ((scanUnusedU (finishU uE)).checkers[k]?).map (fun c => (c.line, c.idx))) := by
-  intro hmem
-  obtain ⟨h2, _⟩ := finishU_facts h1
-  obtain ⟨cs, hun⟩ := collectUnused_facts ((finishU uE).heap.get (finishU uE).stack.top).items (finishU uE)
-  unfold scanUnusedU at hmem
-  simp only [List.mem_filterMap] at hmem
-  obtain ⟨k', hk', hck'⟩ := hmem
-  rw [cs] at hck'
-  cases hc' : (finishU uE).checkers[k']? with
-  | none => rw [hc'] at hck'; simp at hck'
-  | some c' =>
-    rw [hc'] at hck'
-    simp only [Option.map_some, Option.some.injEq] at hck'
-    have hkk : k' = k := h2.uniq k' k c' c hc' hc hck'
-    subst hkk
-    rw [hc] at hc'
-    have hcc : c = c' := Option.some.inj hc'
-    subst hcc
-    rcases hun k' hk' with hold | ⟨c2, hc2, hcu2⟩
-    · obtain ⟨⟨c3, hc3, hcu3⟩, _⟩ := h2.unusedOK k' hold
-      rw [hc] at hc3
-      have : c = c3 := Option.some.inj hc3
-      subst this
-      rw [hu] at hcu3; cases hcu3
-    · rw [hc] at hc2
-      have : c = c2 := Option.some.inj hc2
-      subst this
-      rw [hu] at hcu2; cases hcu2
+      rcases m1.each k c hc with h1 | h1
+      · obtain ⟨c2, b1, b2, b3, b4, b5⟩ := foldl_sniU_hit _ _ d ids k c he (by rw [m1.heap]; exact hf) h1
+        exact ⟨k, c2, b1, by rw [b3, b4]; exact hid, b2, by rw [b5]; exact hca, hnu⟩
+      · obtain ⟨c2, b1, b2, b3, b4, b5⟩ := foldl_sniU_hit _ _ d ids k _ he (by rw [m1.heap]; exact hf) h1
+        exact ⟨k, c2, b1, by rw [b3, b4]; exact hid, b2, by rw [b5]; exact hca, hnu⟩
 
 theorem ushape_init (builtins : Scope) (am dn : Bool) (hb : builtins.isClass = false) : UShape (initU builtins am dn) := by
   refine ⟨rfl, fun i hi => ?_, rfl⟩
@@ -1706,8 +1670,8 @@ theorem read_not_unused_fragC (fx : Fixes) (D : Bool) (builtins : Scope) (prog c
           | ok fl2 => exact ⟨s2, rfl, c1, c2⟩
   obtain ⟨sF, e1, e2, e3⟩ := hfinal
   rw [e1] at ho
-  obtain ⟨k, c, hc, hid, hu⟩ := finishU_linkP e2 e3 o ho
-  have := used_not_reported e2 hc hu
+  obtain ⟨k, c, hc, hid, hu, ha, hnu⟩ := finishU_linkP e2 e3 o ho
+  have := scan_not_reported (finishU_facts e2).1 hc hu ha hnu
   rw [hid] at this
   exact this
 
